@@ -17,7 +17,7 @@ from src import utils
 
 
 class SymRandom:
-    def __init__(self, eng, words=None, max_draws=400, max_sym_draws=None, sym_filter=None):
+    def __init__(self, eng, words=None, max_draws=400, max_sym_draws=None, sym_filter=None, fixed_pick=None):
         self.eng = eng
         self.words = list(words or ['zqa', 'zqb', 'zqc', 'zqd', 'zqe', 'zqf', 'zqg', 'zqh'])
         self.pool = list(self.words)
@@ -26,6 +26,7 @@ class SymRandom:
         self.max_sym_draws = max_sym_draws   # after this many symbolic draws: first element / False / lower bound
         self.sym_filter = sym_filter         # choice(seq) is symbolic only when sym_filter(seq) holds (others: first element)
         self.max_draws = max_draws
+        self.fixed_pick = fixed_pick         # index taken by a choice that is no longer symbolic (default: 0)
         self.log = []
         self.word_mode = 'first'      # 'first': deterministic fresh word (names are interchangeable); 'any'
         self._n = 0
@@ -52,7 +53,10 @@ class SymRandom:
         if len(seq) > 1 and self.sym_filter is not None and not self.sym_filter(seq):
             i = 0
         else:
-            i = 0 if (len(seq) > 1 and self._fixed()) else self.eng.choice_index(len(seq), 'choice')
+            if len(seq) > 1 and self._fixed():
+                i = self.fixed_pick(seq) if self.fixed_pick is not None else 0
+            else:
+                i = self.eng.choice_index(len(seq), 'choice')
         self.log.append(('choice', len(seq), i))
         return seq[i]
 
